@@ -9,6 +9,7 @@ PROGRAM = r"""
 :- use_module(library(format)).
 :- use_module(library(between)).
 :- use_module(library(iso_ext)).
+:- use_module(library(terms)).
 :- set_prolog_flag(double_quotes, chars).
 cells(Xs, L) :- append(Xs, [], L).                      % the same list, rebuilt from list cells
 deep_cells(T, T) :- var(T), !.
@@ -25,13 +26,17 @@ text("abcdefghi").
 text("abcdefghijklmnopqrstuvwxyz").
 text("caf\xe9\ \x20ac\\x1f600\ xyz").
 text("ab\x0\cd").
+text("abcde\xe9\").
+text("abcde\x20ac\").
+text("abcde\x1f600\").
 text("\x0\").
 % suffixes sharing the packed string of S
 suffix(S, K, Suf) :- length(P, K), append(P, Suf, S).
 chk(Name, G1, R1, G2, R2) :-
     ( catch(G1, E1, R1 = err(E1)) -> true ; R1 = failed ),
     ( catch(G2, E2, R2 = err(E2)) -> true ; R2 = failed ),
-    ( R1 == R2 -> true ; format("MISMATCH ~q string=~q cells=~q~n", [Name, R1, R2]) ).
+    ( variant(R1, R2) -> true ; format("MISMATCH ~q string=~q cells=~q~n", [Name, R1, R2]) ).
+variant(A, B) :- \+ \+ ( copy_term(A-B, A1-B1), numbervars(A1, 0, N), numbervars(B1, 0, N), A1 == B1 ).
 case(I, S) :-
     cells(S, L),
     chk(I-eq, (S == L -> R1 = yes ; R1 = no), R1, (L == L -> R2 = yes ; R2 = no), R2),
@@ -52,7 +57,40 @@ case(I, S) :-
                  chk(I-copy3(A,B,C), copy_term(f(SA, SB, SC), R23), R23, copy_term(f(LA, LB, LC), R24), R24),
                  chk(I-cmp3(A,B,C), compare(R25, f(SA, SB), f(SB, SC)), R25, compare(R26, f(LA, LB), f(LB, LC)), R26) ))
     ; true ).
+% a string that continues with an arbitrary tail (list cells, improper or open tails, another string) against the same
+% term built from list cells only
+tailcase(t_ints, [1, 2]).
+tailcase(t_mixed, [f(x), 1, 2.0, b]).
+tailcase(t_str, [1|S]) :- S = "zz".
+tailcase(t_improper, [1|foo]).
+tailcase(t_atom, foo).
+tailcase(t_open, [1|_]).
+tailcase(t_var, _).
+with_tail([], T, T).
+with_tail([X|Xs], T, [X|Ys]) :- with_tail(Xs, T, Ys).
+case2(I, S) :-
+    S = [_|_],
+    forall(tailcase(N, T0),
+      ( copy_term(T0, T), partial_string(S, P, T), with_tail(S, T, L),
+        chk(I-N-sort, sort(P, R1), R1, sort(L, R2), R2),
+        chk(I-N-length, length(P, R3), R3, length(L, R4), R4),
+        chk(I-N-eq, (P == L -> R5 = yes ; R5 = no), R5, true, yes),
+        chk(I-N-compare, compare(R6, P, L), R6, true, (=)),
+        chk(I-N-keysort, (P = [K|_], keysort([K-1|P], R7)), R7, (L = [K2|_], keysort([K2-1|L], R8)), R8),
+        chk(I-N-copy, copy_term(P, R9), R9, copy_term(L, R10), R10),
+        chk(I-N-findall, findall(X, member(X, P), R11), R11, findall(X, member(X, L), R12), R12),
+        chk(I-N-atom_chars, atom_chars(R13, P), R13, atom_chars(R14, L), R14),
+        chk(I-N-atom_length, (atom_chars(A1, P), atom_length(A1, R15)), R15, (atom_chars(A2, L), atom_length(A2, R16)), R16),
+        chk(I-N-univ, (R17 =.. [g|P]), R17, (R18 =.. [g|L]), R18),
+        chk(I-N-rev, reverse(P, R19), R19, reverse(L, R20), R20),
+        chk(I-N-assert, (retractall(st(_)), assertz(st(P)), st(R21)), R21, (retractall(st(_)), assertz(st(L)), st(R22)), R22),
+        chk(I-N-number_codes, number_chars(R23, P), R23, number_chars(R24, L), R24),
+        chk(I-N-ground, (ground(P) -> R25 = yes ; R25 = no), R25, (ground(L) -> R26 = yes ; R26 = no), R26),
+        chk(I-N-tvars, (term_variables(P, Vs), length(Vs, R27)), R27, (term_variables(L, Ws), length(Ws, R28)), R28)
+      )).
+case2(_, []).
 :- dynamic(st/1).
+main :- findall(S, text(S), Ss), nth0(I, Ss, S), ( catch(case2(I, S), E, (format("MISMATCH ~q string=~q cells=~q~n", [I-case2, err(E), ok]))) -> true ; format("MISMATCH ~q string=~q cells=~q~n", [I-case2, failed, ok]) ), fail.
 main :- findall(S, text(S), Ss), nth0(I, Ss, S), ( catch(case(I, S), E, (format("MISMATCH ~q string=~q cells=~q~n", [I-case, err(E), ok]))) -> true ; format("MISMATCH ~q string=~q cells=~q~n", [I-case, failed, ok]) ), fail.
 main :- halt.
 :- initialization(main).
